@@ -388,6 +388,7 @@ func (im *jsImpl) apply(o jsOp, m *mJob) jsObs {
 
 func runJobSync(ctx *RunCtx) *Result {
 	res := NewResult()
+	jobStartupCheck(res)
 	p := NewPRNG(ctx.Seed)
 	for i := 0; i < ctx.N; i++ {
 		c := p.Fork()
